@@ -187,7 +187,10 @@ def check_driver(fn, df=None):
     if len(sh_next) != 1:
         df.bad("next", "shift-next-count", sh["line"], "the shift arm must take exactly one token with `next()` (found %d)" % len(sh_next))
     binder = sh["pat"]["elems"][0]["name"] if sh["pat"]["elems"] and sh["pat"]["elems"][0]["k"] == "PIdent" else None
-    pushes = [mc for mc in nodes(sh["body"], "MethodCall") if mc["method"] == "push"]
+    from .syn import inline_lets, simple_lets
+    sh_lets = simple_lets(sh["body"]["block"]["stmts"]) if sh["body"]["k"] == "BlockExpr" else {}
+    sh_lets = {k_: v_ for k_, v_ in sh_lets.items() if k_ != stream}
+    pushes = [inline_lets(mc, sh_lets) for mc in nodes(sh["body"], "MethodCall") if mc["method"] == "push"]
     pushed_state = any(ident_of(p["args"][0]) == binder for p in pushes if p["args"])
     pushed_node = False
     for p in pushes:
